@@ -25,8 +25,8 @@ STATE_MEASURE = '(events in pass snapshot, distinct priorities in snapshot, nest
 REAL = ['circuits.core.manager.Manager (fire/_fire/flush/tick/_dispatcher/_EventQueue)', 'circuits.core.components.BaseComponent',
         'circuits.core.handlers.handler', 'circuits.core.events.Event']
 STUBBED = ['handler tie-break order and task order (decided by the tape through Manager.getHandlers / _tasks seams)']
-ASSUMPTIONS = ['all components and events use channel "*" (matching is C01\'s subject)', 'handlers are not generators; a handler may raise (after firing/stopping): the order and stop() clauses hold regardless']
-PROBES = ['fired-in-handler', 'nested-flush', 'nested-flush-new-pass', 'stop', 'mixed-priority-pass', 'tie-priority-handlers', 'fault:handler-raise', 'stop-then-raise']
+ASSUMPTIONS = ['all components use channel "*"; handlers may override their channel (a/b) and events may be fired on explicit channels, also two at once: for those only the order and stop() clauses are judged (matching is C01\'s subject)', 'handlers are not generators; a handler may raise (after firing/stopping): the order and stop() clauses hold regardless']
+PROBES = ['fired-in-handler', 'nested-flush', 'nested-flush-new-pass', 'stop', 'mixed-priority-pass', 'tie-priority-handlers', 'fault:handler-raise', 'stop-then-raise', 'multi-channel-event']
 TIERS = {
     'quick': dict(runs=24000, wall=35, chunk=250, cfg=dict(max_events=40, max_ops=12)),
     'thorough': dict(runs=600000, wall=600, chunk=500, cfg=dict(max_events=120, max_ops=30)),
@@ -77,11 +77,12 @@ def run_one(ctx):
     world.reset(ctx)
     cfg = ctx.cfg
     model = PassModel()
-    st = dict(next_eid=0, budget=ch.randint(4, cfg['max_events'], 'event-budget'), inv=0, depth=0, flush_depth=0, xmap={})
+    st = dict(next_eid=0, budget=ch.randint(4, cfg['max_events'], 'event-budget'), inv=0, depth=0, flush_depth=0, xmap={}, obs_seen=set())
     handled = {}   # eid -> list of (hid, prio, stopped_here)
     dispatched = []
     meta = {}      # eid -> dict(name, prio)
     all_handlers = {}   # name -> list of (hid, prio)
+    hchans = {}         # name -> {hid: channel override or None}
 
     def new_event(name, prio, origin):
         st['next_eid'] += 1
@@ -100,10 +101,16 @@ def run_one(ctx):
         ctx.log('F', eid, name, prio, origin)
         ctx.trace('fire e%d %s prio=%r from %s' % (eid, name, prio, origin))
         model.fire(eid, prio)
-        if prio == 0 and ch.draw(2, 'fire-kw') == 0:
+        # mostly the default channel ('*': every handler matches); sometimes explicit channels, also two of them - then the handlers
+        # come from several channels (and a handler listening on both is invoked once per channel: not judged)
+        chans = [(), (), (), (), (), ('a',), ('b',), ('a', 'b'), ('b', 'a')][ch.draw(9, 'fire-channels')]
+        meta[eid]['channels'] = chans
+        if len(chans) > 1:
+            ctx.stat('multi-channel-event')
+        if prio == 0 and not chans and ch.draw(2, 'fire-kw') == 0:
             comp.fire(e)
         else:
-            comp.fire(e, priority=prio)
+            comp.fire(e, *chans, priority=prio)
         if st['inv'] != before:
             ctx.violation('C02/fire-reentrant', 'fire() of e%d ran %d handler invocation(s) before returning' % (eid, st['inv'] - before))
 
@@ -141,6 +148,7 @@ def run_one(ctx):
     def make_handler(names, prio, script):
         hid_counter[0] += 1
         hid = hid_counter[0]
+        hchan = [None, None, None, 'a', 'b'][ch.draw(5, 'handler-channel')]
 
         def h(self, event, *args, **kwargs):
             eid = getattr(event, 'sim_id', None)
@@ -174,7 +182,7 @@ def run_one(ctx):
                         # the dispatcher fires an `exception` event (priority 0) right after the raise: it takes part in the passes
                         st['next_eid'] += 1
                         xid = st['next_eid']
-                        st['xmap'][(eid, hid)] = xid
+                        st['xmap'].setdefault((eid, hid), []).append(xid)
                         meta[xid] = dict(name='exception', prio=0, origin='h%d' % hid)
                         ctx.log('F', xid, 'exception', 0, 'h%d' % hid)
                         model.fire(xid, 0)
@@ -184,7 +192,9 @@ def run_one(ctx):
         h.__name__ = 'h%d' % hid
         for n in names:
             all_handlers.setdefault(n, []).append((hid, prio))
-        return handler(*names, priority=prio)(h), hid
+        for n in names:
+            hchans.setdefault(n, {})[hid] = hchan
+        return (handler(*names, priority=prio, channel=hchan)(h) if hchan else handler(*names, priority=prio)(h)), hid
 
     def gen_script():
         script = []
@@ -207,9 +217,13 @@ def run_one(ctx):
             eid = getattr(event, 'sim_id', None)
             if eid is None and event.name == 'exception':
                 fe, fh = kwargs.get('fevent'), kwargs.get('handler')
-                eid = st['xmap'].get((getattr(fe, 'sim_id', None), int(fh.__name__[1:]) if fh is not None and fh.__name__[1:].isdigit() else None))
+                pend = st['xmap'].get((getattr(fe, 'sim_id', None), int(fh.__name__[1:]) if fh is not None and fh.__name__[1:].isdigit() else None))
+                eid = pend.pop(0) if pend else None
             if eid is None:
                 return
+            if len(meta[eid].get('channels', ())) > 1 and eid in st['obs_seen']:
+                return      # an event fired on two channels reaches this catch-all once per channel within the one dispatch
+            st['obs_seen'].add(eid)
             exp = model.expect_next()
             dispatched.append(eid)
             ctx.log('D', eid)
@@ -278,11 +292,20 @@ def run_one(ctx):
                 ctx.violation('C02/handler-order', 'handlers of e%d ran with priorities %r (must be non-increasing)' % (eid, prios))
                 break
             hids = [h for h, _, _ in recs]
+            chans = meta[eid].get('channels', ())
+            if len(chans) > 1:
+                # several channels: only the order and stop() clauses are judged (which handlers match, and how often, is C01's subject)
+                stops = [i for i, r in enumerate(recs) if r[2]]
+                if stops and any(p < recs[stops[0]][1] for _, p, _ in recs[stops[0] + 1:]):
+                    ctx.violation('C02/stop-ignored', 'e%d (channels %r): handler after stop() with lower priority ran: %r' % (eid, chans, recs))
+                    break
+                continue
             if len(set(hids)) != len(hids):
                 ctx.violation('C02/handler-twice', 'a handler ran twice for e%d: %r' % (eid, hids))
                 break
             stops = [i for i, r in enumerate(recs) if r[2]]
-            expect = all_handlers.get(meta[eid]['name'], [])
+            expect = [(h, p) for h, p in all_handlers.get(meta[eid]['name'], [])
+                      if not chans or hchans[meta[eid]['name']][h] is None or hchans[meta[eid]['name']][h] == chans[0]]
             if stops:
                 sp = recs[stops[0]][1]
                 if stops[0] != len(recs) - 1 and any(p < sp for _, p, _ in recs[stops[0] + 1:]):
